@@ -45,6 +45,31 @@ theorem and_sign_toNat (x : W) : (x &&& 9223372036854775808#64).toNat =
   rw [e2]
   split <;> rfl
 
+/-- a word with its sign bit flipped (the order-preserving map from signed to unsigned words that a rewrite may compare
+    through) -/
+theorem xor_sign_toNat (x : BitVec 64) : (x ^^^ 9223372036854775808#64).toNat =
+    if 9223372036854775808 ≤ x.toNat then x.toNat - 9223372036854775808 else x.toNat + 9223372036854775808 := by
+  have hx := x.isLt
+  rw [BitVec.toNat_xor]
+  have e : (9223372036854775808#64 : BitVec 64).toNat = 2^63 := by decide
+  rw [e]
+  have hm : (x.toNat ^^^ 2^63) % 2^63 = x.toNat % 2^63 := by
+    rw [Nat.xor_mod_two_pow, Nat.mod_self, Nat.xor_zero]
+  have hd : (x.toNat ^^^ 2^63) / 2^63 = (x.toNat / 2^63) ^^^ 1 := by
+    rw [Nat.xor_div_two_pow, Nat.div_self (by decide)]
+  have hq : x.toNat / 2^63 = 0 ∨ x.toNat / 2^63 = 1 := by omega
+  have hdm := Nat.div_add_mod (x.toNat ^^^ 2^63) (2^63)
+  have hdm' := Nat.div_add_mod x.toNat (2^63)
+  rcases hq with h | h
+  · rw [h] at hd hdm'
+    have : (0:Nat) ^^^ 1 = 1 := by decide
+    rw [this] at hd
+    split <;> omega
+  · rw [h] at hd hdm'
+    have : (1:Nat) ^^^ 1 = 0 := by decide
+    rw [this] at hd
+    split <;> omega
+
 /-! ## the model functions characterised by their value -/
 
 theorem I128_ext {a b : I128} (h : a.toU.toNat = b.toU.toNat) : a = b := by
@@ -196,7 +221,7 @@ macro_rules
       gen_norm <;>
       (try simp only [BitVec.toNat_add, BitVec.toNat_sub, BitVec.toNat_not, BitVec.toNat_neg, BitVec.toNat_ofNat,
         BitVec.reduceToNat, BitVec.reduceToInt, apply_ite BitVec.toNat, apply_ite BitVec.toInt, GenTie.toInt_eq,
-        GenTieSpec.and_sign_toNat, Nat.reducePow, Nat.reduceMod, Nat.reduceSub, Nat.reduceAdd] at *) <;>
+        GenTieSpec.and_sign_toNat, GenTieSpec.xor_sign_toNat, Nat.reducePow, Nat.reduceMod, Nat.reduceSub, Nat.reduceAdd] at *) <;>
       (try split_ifs at *) <;>
       (try simp only [decide_eq_true_eq, decide_eq_false_iff_not, Decidable.not_not, Nat.not_lt, Nat.not_le,
         Int.not_lt, Int.not_le] at *) <;>
